@@ -9,6 +9,15 @@ where a verdict is `PASS`, or `FAIL:<oracle>:<detail>` (no spaces inside).
 import ScadVerif.Model.Mt4
 namespace ScadVerif.Driver
 
+/- `F!(1e-12)` : a `Float` literal evaluated at *compile* time.  (In Lean 4.33 a plain scientific
+literal is converted by `Float.ofScientific` every time the expression runs — big-number
+arithmetic, milliseconds for exponents like 1e300.) -/
+open Lean in
+macro:max "F!(" x:scientific ")" : term => do
+  let (m, s, e) := x.getScientific
+  let f := Float.ofScientific m s e
+  `(Float.ofBits $(Syntax.mkNumLit (toString f.toBits.toNat)))
+
 def hexDigit (c : Char) : Option Nat :=
   if '0' ≤ c ∧ c ≤ '9' then some (c.toNat - '0'.toNat)
   else if 'a' ≤ c ∧ c ≤ 'f' then some (c.toNat - 'a'.toNat + 10)
@@ -184,7 +193,7 @@ abbrev Handler := List String → Res → Except String (Res × List String)
 def fmax (a b : Float) : Float := if a < b then b else a
 def close (a b tol : Float) : Bool :=
   if a.isNaN || b.isNaN then false else
-  (a - b).abs ≤ tol * (1.0 + fmax a.abs b.abs) || a == b
+  (a - b).abs ≤ tol * (F!(1.0) + fmax a.abs b.abs) || a == b
 
 def fmtF (x : Float) : String := (toString x).replace " " ""
 
